@@ -28,6 +28,10 @@ def var_bits(name, nbits, w):
 WIDTH = {"u8": 8, "u16": 16, "u32": 32, "u64": 64, "usize": 64, "i8": 8, "i16": 16, "i32": 32, "i64": 64}
 
 
+def is_zero(v):
+    return all(x == ZERO for x in v)
+
+
 def ev(t, env, w=32, call=None, depth=0):
     """env(term) -> bits or None; call(key, arg_bits) -> bits or raises Unknown"""
     if depth > 30:
@@ -36,8 +40,12 @@ def ev(t, env, w=32, call=None, depth=0):
     if r is not None:
         return r
     k = t[0]
+    if k == "const" and isinstance(t[1], bool):
+        return const_bits(int(t[1]), w)
     if k == "const" and isinstance(t[1], int):
         return const_bits(t[1], w)
+    if k == "const" and t[1] in ("true", "false"):
+        return const_bits(1 if t[1] == "true" else 0, w)
     if k in ("bin", "ovf"):
         op = t[1]
         if op in ("Shl", "Shr"):
@@ -51,7 +59,7 @@ def ev(t, env, w=32, call=None, depth=0):
         a = ev(t[2], env, w, call, depth + 1)
         b = ev(t[3], env, w, call, depth + 1)
         if op == "BitOr":
-            return [x | y for x, y in zip(a, b)]
+            return [ONE if ("1",) in (x | y) else (x | y) for x, y in zip(a, b)]
         if op == "BitAnd":
             out = []
             for x, y in zip(a, b):
@@ -76,6 +84,11 @@ def ev(t, env, w=32, call=None, depth=0):
                 else:
                     raise Unknown()
             return out
+        if op == "Ne" and (is_zero(a) or is_zero(b)):
+            # x != 0  is the OR of all bits of x
+            v = b if is_zero(a) else a
+            u = frozenset().union(*v)
+            return [ONE if ("1",) in u else u] + [ZERO] * (w - 1)
         if op == "Add":
             # a + b with disjoint bit supports is a | b
             if all(x == ZERO or y == ZERO for x, y in zip(a, b)):
